@@ -145,6 +145,7 @@ func (s *e1State) deltaRule(r *Report, rule string, pair int, name string, pr *P
 	a := &insAnalyzer{w: w, info: fp.TypesInfo, fo: s.fo, fkLocals: d.FkLocals, recvOnly: recvOnlyNames(w, pair, name, s.fo)}
 	if fd, _ := w.FuncDecl(forkPath(pair), name); fd != nil {
 		a.computeZeroLocals(fd)
+		a.deadResults = deadNamedResults(fp.TypesInfo, fd, d)
 	}
 	// reference statements without a match: only reviewed replacements are admissible
 	usedIns := map[*Insertion]bool{}
@@ -421,6 +422,17 @@ func (s *e1State) stripOK(a *insAnalyzer, fp *packages.Package, d *FuncDelta, t 
 				lhs, rhs = st.Lhs, st.Rhs
 			case *ast.IncDecStmt:
 				lhs = []ast.Expr{st.X}
+			case *ast.ValueSpec:
+				// `var counter = <init>`: the initial value must be zero without Aspect state
+				for i, nm := range st.Names {
+					if fp.TypesInfo.Defs[nm] != o {
+						continue
+					}
+					if i < len(st.Values) && !a.zeroAtZeroState(st.Values[i]) {
+						ok, why = false, "counter initialised with a value that is not zero without Aspect state"
+					}
+				}
+				return true
 			default:
 				return true
 			}
@@ -433,8 +445,17 @@ func (s *e1State) stripOK(a *insAnalyzer, fp *packages.Package, d *FuncDelta, t 
 					if tv := fp.TypesInfo.Types[rhs[i]]; tv.Value != nil && tv.Value.ExactString() == "0" {
 						continue
 					}
+					if a.zeroAtZeroState(rhs[i]) {
+						continue
+					}
 					ok, why = false, "counter initialised with a non-zero value"
 					continue
+				}
+				if zw := a.zsZeroWrite[ast.Stmt(nil)]; zw != nil {
+					_ = zw
+				}
+				if as, isAs := n.(*ast.AssignStmt); isAs && a.zsZeroWrite[as][o] {
+					continue // assigned the constant 0 by a helper call that is a no-op at zero state (ZERO_STATE_NOOP)
 				}
 				if !s.insideZeroGuardedInsertion(a, d, n.Pos()) {
 					ok, why = false, "counter written outside a construct that is dead at zero Aspect state"
@@ -476,6 +497,59 @@ func enclosingFuncDecl(p *packages.Package, pos token.Pos) *ast.FuncDecl {
 		}
 	}
 	return nil
+}
+
+// deadNamedResults: the named results of fd that no statement matched with the reference mentions, when every
+// return of fd lists its operands: whatever fork statements store there is never observed.
+func deadNamedResults(info *types.Info, fd *ast.FuncDecl, d *FuncDelta) map[types.Object]bool {
+	out := map[types.Object]bool{}
+	if fd.Type.Results == nil {
+		return out
+	}
+	explicit := true
+	ast.Inspect(fd.Body, func(n ast.Node) bool {
+		switch x := n.(type) {
+		case *ast.FuncLit:
+			return false
+		case *ast.ReturnStmt:
+			if len(x.Results) == 0 {
+				explicit = false
+			}
+		}
+		return true
+	})
+	if !explicit {
+		return out
+	}
+	for _, fld := range fd.Type.Results.List {
+		for _, nm := range fld.Names {
+			if o := info.Defs[nm]; o != nil && nm.Name != "_" {
+				out[o] = true
+			}
+		}
+	}
+	for _, pr := range d.Pairs {
+		ast.Inspect(pr[1], func(n ast.Node) bool {
+			if id, ok := n.(*ast.Ident); ok && out[info.Uses[id]] {
+				delete(out, info.Uses[id])
+			}
+			return true
+		})
+	}
+	// a closure (a deferred report, say) that mentions the result observes it whenever it runs
+	ast.Inspect(fd.Body, func(n ast.Node) bool {
+		if lit, ok := n.(*ast.FuncLit); ok {
+			ast.Inspect(lit, func(m ast.Node) bool {
+				if id, ok := m.(*ast.Ident); ok && out[info.Uses[id]] {
+					delete(out, info.Uses[id])
+				}
+				return true
+			})
+			return false
+		}
+		return true
+	})
+	return out
 }
 
 // classifyWithNesting: the generic classes, then the reviewed special constructs, then — for an inserted `if`
